@@ -77,6 +77,22 @@ func (in *Interp) mergeVal(c *Term, a, b Value) (Value, bool) {
 		if !ok || len(av) != len(bv) {
 			return nil, false
 		}
+		// instants with calendar parts are keyed by an identity variable:
+		// merge the parts, not the keys
+		if len(av) == 3 && in.path != nil {
+			pa, pb := in.partsOf(av), in.partsOf(bv)
+			if pa != nil || pb != nil {
+				if pa == nil || pb == nil || pa.day != pb.day || av[2] != bv[2] {
+					return nil, false
+				}
+				w1, ok1 := av[0].(*Term)
+				w2, ok2 := bv[0].(*Term)
+				if !ok1 || !ok2 || w1 != w2 {
+					return nil, false
+				}
+				return in.newPartsTime(&tparts{day: pa.day, sec: in.tt.Ite(c, pa.sec, pb.sec), ns: in.tt.Ite(c, pa.ns, pb.ns)}, av[2]), true
+			}
+		}
 		out := make(Struct, len(av))
 		for i := range av {
 			m, ok := in.mergeVal(c, av[i], bv[i])
